@@ -17,10 +17,10 @@ def register_p2(reg, prop):
         return {"for block, tmpl_var in self._yield_vars(%s)": None}
     common_ext = {
         # not all of these are called by both bodies; declared so that swapped / shallower variants stay within reach of the contracts
-        "LLSDDataPacker.pack": {"returns": o, "record_as": "pack", "record_result": True, "may_raise": "AnyException", "doc": "value -> LLSD-expressible form"},
-        "LLSDDataPacker.unpack": {"returns": o, "record_as": "unpack", "record_result": True, "may_raise": "AnyException", "doc": "LLSD form -> value"},
-        "dict": {"returns": "Opaque:Val", "record_as": "shallow", "doc": "shallow copy (shares the inner blocks)"},
-        "copy.copy": {"returns": "Opaque:Val", "record_as": "shallow", "doc": "shallow copy (shares the inner blocks)"},
+        "LLSDDataPacker.pack": {"returns": o, "record_as": "pack", "record_result": True, "may_raise": "AnyException", "optional": True, "doc": "value -> LLSD-expressible form"},
+        "LLSDDataPacker.unpack": {"returns": o, "record_as": "unpack", "record_result": True, "may_raise": "AnyException", "optional": True, "doc": "LLSD form -> value"},
+        "dict": {"returns": "Opaque:Val", "record_as": "shallow", "optional": True, "doc": "shallow copy (shares the inner blocks)"},
+        "copy.copy": {"returns": "Opaque:Val", "record_as": "shallow", "optional": True, "doc": "shallow copy (shares the inner blocks)"},
         "self._yield_vars": {"returns": "Opaque:Pairs", "record_as": "walk", "doc": "(block, template variable) pairs whose type needs packing (own generator)"},
         "sub:block[tmpl_var.name]": {"returns": o, "record_as": "get", "record_result": True, "may_raise": "KeyError", "doc": "current value of the variable"},
     }
